@@ -11,6 +11,9 @@ def run(chk, ctx):
     import props.c20_counts as cc
     cc.run(chk, ctx)
 def replay(chk, payload):
+    if 'case' in payload:       # a class-state level replay (props/c20_options.py)
+        import props.c20_options as co
+        return co.replay(chk, payload)
     import props.c20_counts as cc
     f = cc.run_jobs([([], (payload['blt'], payload['options']))])[0]
     a = cc.run_jobs([(payload['history'], (payload['blt'], payload['options']))])[0]
